@@ -114,12 +114,17 @@ Proof. vm_compute. repeat split. Qed.
      16-bit source block length = k_s, 16-bit ESI), ESI < k_s + p, payload = the encoding symbol (source symbols are
      padded to E, as rscodec.rs create_shards does); any order, any duplication;
    - rs_recoverable = blocks_recoverable true p ks 0 (the (sbn, esi) that arrived): every block has k distinct ESI
-     below k + p. *)
+     below k + p;
+   - rs_rep_sized oti rep (new with the repair of D47: BlockDecoder::push discards a symbol longer than E):
+     forall s i, lenN_ (rep s i) <= ro_e oti - the sender's repair symbols fit the announced symbol length
+     (reed_solomon_erasure: exactly E bytes).  The source symbols of a genuine packet are symbols of the padded object
+     (E bytes), so nothing is asked of them  [rs_long_repair_refuted: 3-byte repair symbols for E = 2 are discarded and
+     a recoverable reception is not delivered]. *)
 Theorem C02_rs_recoverable_delivers : forall E oti content rep toi max fid files inst md5 pkts,
   let L := lenN_ content in
   rs_scheme_ok oti L -> rs_blocks_ok oti L -> fdt_entry_for files inst toi oti L md5 ->
   writer_accepts E toi -> writes_succeed E toi -> md5_good E content md5 ->
-  rs_oracle_mds E oti content rep toi ->
+  rs_oracle_mds E oti content rep toi -> rs_rep_sized oti rep ->
   rs_mem_need oti L <= max -> nb_blocks_of oti L <= 4097 ->
   Forall (fun p => rs_genuine_pkt oti content rep p = true) pkts ->
   rs_close_flag_ok oti L pkts ->
@@ -185,6 +190,17 @@ Example C02_rs_guards_are_needed :
   /\ fst (summary 7 (receive env_xor 1 exu_files None 7 6 exu_pkts)) = Completed.
 Proof. vm_compute. repeat split. Qed.
 
+(* D47: the premise rs_rep_sized is needed - genuine (for 3-byte repair symbols, E = 2) and recoverable, not delivered *)
+Example C02_rs_long_repair_refuted :
+  forallb (rs_genuine_pkt exr_oti exr_content exl_rep) exl_pkts = true
+  /\ rs_recoverable exr_oti 5 exl_pkts = true
+  /\ lenN_ (exl_rep 0 2) = 3 /\ ro_e exr_oti = 2
+  /\ summary 7 (receive env_xor 1 exr_files None 7 1000 exl_pkts) = (Receiving, [CallOpen true]).
+Proof. exact rs_long_repair_refuted. Qed.
+Theorem C02_rs_rep_sized_statement : forall oti rep,
+  rs_rep_sized oti rep <-> forall s i, lenN_ (rep s i) <= ro_e oti.
+Proof. intros. reflexivity. Qed.
+
 (* ---------------- RaptorQ (FEC 6) and Raptor (FEC 1), Proofs/C02RS.v ----------------
    The block decoder of the model asks the oracle after every push.  It stores a symbol with a new ESI - RaptorQ: only
    if its size is E (fixes D10); Raptor: padded with zeros up to ceil(block length / k_s) (fixes D10): fq_stored.
@@ -198,8 +214,9 @@ Proof. vm_compute. repeat split. Qed.
      present; RaptorQ: Al <> 0, E mod Al = 0, N <> 0, k_s <= 56403; Raptor: k_s <= 8192
      [fq_scheme_missing_refuted, rq_scheme_parameters_refuted, fq_block_too_large_refuted];
    - fq_sized_pkt: RaptorQ payloads have exactly E bytes (the sender pads the last source symbol); any other size is
-     discarded by the block decoder  [rq_symbol_size_refuted].  Raptor: no size premise (short symbols are padded,
-     raptor_short_symbol_is_padded).
+     discarded by the block decoder  [rq_symbol_size_refuted].  Raptor: at most E bytes (short symbols are padded,
+     raptor_short_symbol_is_padded; since the repair of D47 a symbol LONGER than E is discarded by the block decoder
+     for every scheme, before it reaches the FEC decoder).
    fq_recoverable = blocks_recoverable false 0 ks 0: every source symbol of every block arrived (Spec/SessionSpec);
    repair packets may be interleaved.  Recovery from fewer source symbols is entirely the decoder's and is not stated. *)
 Theorem C02_fq_recoverable_delivers : forall E oti content enc toi max fid files inst md5 pkts,
@@ -245,7 +262,8 @@ Theorem C02_fq_premises_statements : forall oti L s x p k,
     | FRaptor => x ++ repeat 0 (N.to_nat (div_ceil (obj_block_len oti L s) (N.max (rs_k oti L s) 1) - lenN_ x))
     | _ => x
     end
-  /\ fq_sized_pkt oti p = match ro_fec oti with FRaptorQ => lenN_ (a_payload p) =? ro_e oti | _ => true end
+  /\ fq_sized_pkt oti p = match ro_fec oti with FRaptorQ => lenN_ (a_payload p) =? ro_e oti
+                                              | _ => lenN_ (a_payload p) <=? ro_e oti end
   /\ (fq_blocks_ok oti L <-> forallb (fq_dec_ok oti) (source_ks oti L) = true)
   /\ fq_dec_ok oti k
      = match ro_fec oti, ro_scheme oti with
@@ -432,7 +450,7 @@ Theorem C02_rs_session_fdt_first_delivers : forall E parse_fdt cfg oti content r
   fdt_pkt_ok pf id foti d -> parse_fdt d = Some inst -> fdt_live cfg inst pf now ->
   fdt_entry_for (fi_files inst) (fi_oti inst) toi oti L md5 ->
   writer_accepts E toi -> writes_succeed E toi -> md5_good E content md5 ->
-  rs_oracle_mds E oti content rep toi ->
+  rs_oracle_mds E oti content rep toi -> rs_rep_sized oti rep ->
   rs_mem_need oti L <= cf_max_cache cfg -> nb_blocks_of oti L <= 4097 ->
   Forall (fun p => a_toi p = toi) pkts ->
   Forall (fun p => rs_genuine_pkt oti content rep p = true) pkts ->
@@ -451,7 +469,7 @@ Theorem C02_rs_session_fdt_late_delivers : forall E parse_fdt cfg oti content re
   fdt_pkt_ok pf id foti d -> parse_fdt d = Some inst -> fdt_live cfg inst pf now ->
   fdt_entry_for (fi_files inst) (fi_oti inst) toi oti L md5 ->
   writer_accepts E toi -> writes_succeed E toi -> md5_good E content md5 ->
-  rs_oracle_mds E oti content rep toi ->
+  rs_oracle_mds E oti content rep toi -> rs_rep_sized oti rep ->
   rs_mem_need oti L <= cf_max_cache cfg -> nb_blocks_of oti L <= 4097 ->
   Forall (fun p => a_toi p = toi) (pkts1 ++ pkts2) ->
   Forall (fun p => rs_genuine_pkt oti content rep p = true) (pkts1 ++ pkts2) ->
@@ -878,7 +896,7 @@ Theorem C02_rs_object_among_other_traffic : forall E parse_fdt cfg oti content r
   fdt_pkt_ok pf id foti d -> parse_fdt d = Some inst -> fdt_live cfg inst pf now ->
   fdt_entry_for (fi_files inst) (fi_oti inst) toi oti L md5 ->
   writer_accepts E toi -> writes_succeed E toi -> md5_good E content md5 ->
-  rs_oracle_mds E oti content rep toi ->
+  rs_oracle_mds E oti content rep toi -> rs_rep_sized oti rep ->
   rs_mem_need oti L <= cf_max_cache cfg -> nb_blocks_of oti L <= 4097 ->
   Forall (fun p => a_toi p <> 0) pkts ->
   let mine := filter (fun p => a_toi p =? toi) pkts in
@@ -1094,7 +1112,7 @@ Theorem C02_rs_cached_recoverable_delivers : forall E oti content rep toi max fi
   let L := lenN_ content in
   rs_scheme_ok oti L -> rs_blocks_ok oti L -> toi <> 0 -> fdt_entry_for files inst toi oti L md5 ->
   writer_accepts E toi -> writes_succeed E toi -> md5_good E content md5 ->
-  rs_oracle_mds E oti content rep toi ->
+  rs_oracle_mds E oti content rep toi -> rs_rep_sized oti rep ->
   rs_mem_need oti L <= max -> nb_blocks_of oti L <= 4097 ->
   Forall cacheable pre -> cache_fits max 0 pre = true ->
   Forall (fun p => rs_genuine_pkt oti content rep p = true) (pre ++ post) ->
@@ -1114,7 +1132,7 @@ Theorem C02_rs_session_fdt_cached_delivers : forall E parse_fdt cfg oti content 
   fdt_pkt_ok pf id foti d -> parse_fdt d = Some inst -> fdt_live cfg inst pf now ->
   fdt_entry_for (fi_files inst) (fi_oti inst) toi oti L md5 ->
   writer_accepts E toi -> writes_succeed E toi -> md5_good E content md5 ->
-  rs_oracle_mds E oti content rep toi ->
+  rs_oracle_mds E oti content rep toi -> rs_rep_sized oti rep ->
   rs_mem_need oti L <= cf_max_cache cfg -> nb_blocks_of oti L <= 4097 ->
   Forall (fun p => a_toi p = toi) (pre ++ post) ->
   Forall (fun p => rs_genuine_pkt oti content rep p = true) (pre ++ post) ->
@@ -1295,7 +1313,7 @@ Theorem C02_rs_session_fdt_late_delivers_any_flag_before_fdt :
   fdt_pkt_ok pf id foti d -> parse_fdt d = Some inst -> fdt_live cfg inst pf now ->
   fdt_entry_for (fi_files inst) (fi_oti inst) toi oti L md5 ->
   writer_accepts E toi -> writes_succeed E toi -> md5_good E content md5 ->
-  rs_oracle_mds E oti content rep toi ->
+  rs_oracle_mds E oti content rep toi -> rs_rep_sized oti rep ->
   rs_mem_need oti L <= cf_max_cache cfg -> nb_blocks_of oti L <= 4097 ->
   Forall (fun p => a_toi p = toi) (pkts1 ++ pkts2) ->
   Forall (fun p => rs_genuine_pkt oti content rep p = true) (pkts1 ++ pkts2) ->
